@@ -116,6 +116,7 @@ func C04(run *mon.Run) {
 		go func(si int) {
 			defer wg.Done()
 			defer func() { <-sem }()
+			defer run.Protect("c04 worker")
 			r := run.Rand(fmt.Sprintf("set-%d", si))
 			kind := kinds[si%len(kinds)]
 			n := 1 + r.IntN(maxN)
